@@ -5,7 +5,7 @@ use crate::{Package, RotoError, RotoReport, Runtime, runtime::OptCtx};
 /// A module gets the name of its file or directory, so that name has to have
 /// the shape of an identifier: `a.b.roto` next to `a/b.roto` would otherwise
 /// define two modules both printed as `pkg.a.b`.
-fn is_identifier_shaped(s: &str) -> bool {
+pub(crate) fn is_identifier_shaped(s: &str) -> bool {
     let mut chars = s.chars();
     chars
         .next()
